@@ -83,9 +83,35 @@ class SDecStr:
         return True
 
 
+def _str_eq(a, b):
+    """equality of two symbolic strings of the same construction (decimal + constant suffixes)"""
+    pa = a.parts if isinstance(a, SCat) else [a]
+    pb = b.parts if isinstance(b, SCat) else [b]
+    if len(pa) != len(pb):
+        raise Unsupported("comparison of differently built symbolic strings")
+    conds = []
+    for x, y in zip(pa, pb):
+        if isinstance(x, str) and isinstance(y, str):
+            if x != y:
+                return False
+        elif isinstance(x, SDecStr) and isinstance(y, SDecStr) and x.p == y.p:
+            conds.append(x.M == y.M)
+        else:
+            raise Unsupported("comparison of differently built symbolic strings")
+    return core.And(*conds) if conds else True
+
+
 class SCat:
     """concatenation of string pieces (str constants and symbolic strings)"""
     _pyvc_symbolic = True
+
+    def __eq__(self, o):
+        return _str_eq(self, o)
+
+    def __ne__(self, o):
+        return core.Not(_str_eq(self, o))
+
+    __hash__ = None
 
     def __init__(self, parts):
         self.parts = []
@@ -152,6 +178,14 @@ def m_format(interp, v, spec=""):
             if interp.truth(v < 0):
                 raise Unsupported("format of negative symbolic int")
             return SDecStr(v * (10 ** p), p, grouped)
+        if isinstance(v, SReal):
+            from .models_numpy import round_half_even_real
+            if p != 0:
+                raise Unsupported("format of a real with decimals")
+            if interp.truth(v < 0):
+                raise Unsupported("format of a negative real")
+            M = SInt(core.Z.ToInt(round_half_even_real(v).t))
+            return SDecStr(M, 0, grouped)
         if isinstance(v, STrueDiv):
             a, b = v.a, v.b
             if not isinstance(b, int) or b <= 0:
